@@ -1,8 +1,9 @@
 (* PropC13.v — property theorems for C13 (path algebra), about the executable model PathModel.v.
-   Every theorem is closed by [exact] of a lemma of PathLaws.v and followed by Print Assumptions;
-   Examples show that the hypotheses are satisfiable and the conclusions non-trivial.
-   Full-strength statements that are false of the faithful model are kept as [..._full] with a
-   [..._refuted] theorem (witness evaluated by vm_compute) next to the strongest true form.
+   Every theorem is closed by [exact] of a lemma of PathLaws.v / PathGenLaws.v and followed by Print
+   Assumptions (all: closed under the global context); Examples show that the hypotheses are satisfiable
+   and the conclusions non-trivial.  Full-strength statements that are false of the faithful model are kept
+   as [..._full] with a [..._refuted] theorem next to the strongest true form; the refutations are the only
+   proofs written here: a concrete witness evaluated by vm_compute.
 
    Hypotheses used throughout (PathLaws.v):
      fold_ok cv   the per-character case fold is idempotent, maps exactly the separator to the
